@@ -11,7 +11,10 @@ STATUS_FUNCS: Dict[str, Callable[[Tuple[int, ...]], int]] = {
     'invalid-request-400': lambda codes: 400 if codes and codes[0] == -32600 else 200,
     'count': lambda codes: 250 + min(len(codes), 6),   # not 204 / 205 / 304: those replies carry no body
     'parse-error-418': lambda codes: 418 if -32700 in codes else 202,
+    # not a pure function of the codes: it consults a table the application updates while it is serving
+    'table': lambda codes: STATUS_TABLE['error' if any(codes) else 'ok'],
 }
+STATUS_TABLE: Dict[str, int] = {'error': 500, 'ok': 200}
 
 def codec_kwargs(codec: str) -> Dict[str, Any]:
     """'custom': application JSON encoder / decoder classes on the integration (see pbt/codecs.py)"""
